@@ -185,3 +185,29 @@ Print Assumptions mainLoop_nc_returns.
 Theorem run_proto_nc_full : forall fuel p, run_proto_nc fuel p <> VFinFuel -> run_proto fuel p = run_proto_nc fuel p.
 Proof. exact DiscFacts.run_proto_nc_full_lemma. Qed.
 Print Assumptions run_proto_nc_full.
+
+(* 9. Items 7 and 8 put together: all 42 opcodes with the discipline as the hypothesis on the
+      re-entered loop, and for the loop of the cut machine - where the discipline is a theorem - with
+      no hypothesis on it but that it does not fault itself (the induction on fuel that the run-level
+      statement still lacks; it needs the pc invariant); the host functions of the cut machine are
+      shown not to fault when the loop they re-enter does not. *)
+Theorem wf_step_noob_disc : forall ml gf,
+  (forall b, noob (ml b)) -> (forall b, noob (gf b)) -> ml_disc ml ->
+  forall cl cf rest inst base,
+  wf_fn (WfTieFacts.fn_of (cl_proto cl)) = true ->
+  closure_ok cl ->
+  pc_ok (WfTieFacts.fn_of (cl_proto cl)) (fr_pc cf - 1) ->
+  zth (xp_code (cl_proto cl)) (fr_pc cf - 1) = Some inst ->
+  noob_on (stk (cf :: rest)) (exec_op ml gf cl cf inst base).
+Proof. exact DiscFacts.wf_step_noob_disc_lemma. Qed.
+Print Assumptions wf_step_noob_disc.
+
+Theorem wf_step_noob_nc : forall n cl cf rest inst base,
+  (forall b, noob (mainLoop_nc n b)) ->
+  wf_fn (WfTieFacts.fn_of (cl_proto cl)) = true ->
+  closure_ok cl ->
+  pc_ok (WfTieFacts.fn_of (cl_proto cl)) (fr_pc cf - 1) ->
+  zth (xp_code (cl_proto cl)) (fr_pc cf - 1) = Some inst ->
+  noob_on (stk (cf :: rest)) (exec_op (mainLoop_nc n) (gfunction_nc (mainLoop_nc n)) cl cf inst base).
+Proof. exact DiscFacts.wf_step_noob_nc_lemma. Qed.
+Print Assumptions wf_step_noob_nc.
